@@ -319,8 +319,18 @@ class Check:
         """Concurrent scenarios: implementation-side oracles on the call/return history, and
         validation of the implementation's actor-turn log against the model's turn functions."""
         cases = gen_conc.cases(rng.fork("conc/" + profile), profile, n_cases)
+        if not getattr(self, "_in_corpus", False):
+            for ops, seed in self.corpus_cases(profile, "conc"):
+                self._in_corpus = True
+                try:
+                    self.conc_cases("corpus/" + profile, [ops], seed)
+                finally:
+                    self._in_corpus = False
+        self.conc_cases(profile, cases, self.seed)
+
+    def conc_cases(self, profile, cases, seed):
         lines = [l for c in cases for l in c]
-        out, sides, trace, crashed = run_impl_conc(lines, self.seed)
+        out, sides, trace, crashed = run_impl_conc(lines, seed)
         verdicts, _, _ = run_model("trace", "\n".join(trace) + "\n")
         nd = 0
         kinds = self.cfg.get("trace_kinds", set())
@@ -365,11 +375,11 @@ class Check:
                 self.hist[k] = self.hist.get(k, 0) + 1
             if any(a.startswith(("ok", "msgs")) for l, a in zip(c, ans) if l.split() and l.split()[0] in self.cfg["relevant"]):
                 self.distinct.add(case_hash(c + sd))
-            if profile in self.cfg.get("no_oracle", ()):
+            if profile.split("/")[-1] in self.cfg.get("no_oracle", ()):
                 continue          # this property's oracle is not defined for histories of this profile (trace / slice validation only)
             for sig, msg in oracles.run_seq_oracle(self.prop, c, ans, sd, conc=True):
                 if own_signature(self.prop, sig):
-                    self.oracle_fail.append((sig, msg, dict(mode="conc", stream=profile, ops=c, impl=ans, model=[])))
+                    self.oracle_fail.append((sig, msg, dict(mode="conc", stream=profile, ops=c, impl=ans, model=[], seed=seed)))
         if crashed:
             self.oracle_fail.append(("abort:conc", "the harness process died while running conc/%s" % profile,
                                      dict(mode="conc", stream=profile, ops=lines[:50], impl=[], model=[])))
@@ -432,13 +442,19 @@ class Check:
             return None
         return None
 
-    def corpus_cases(self, profile):
+    def corpus_cases(self, profile, mode="seq"):
+        """Minimised past failures (of the model, of a generator, of a seeded change) kept under
+        corpus/<property>/<profile>-*.json; they run before the generated cases."""
         d = os.path.join(VERIF, "corpus", self.prop)
         out = []
         if os.path.isdir(d):
             for f in sorted(os.listdir(d)):
-                if f.endswith(".ops") and f.startswith(profile):
+                if f.endswith(".ops") and f.startswith(profile) and mode == "seq":
                     out += split_cases([l.rstrip("\n") for l in open(os.path.join(d, f)) if l.strip()])
+                elif f.endswith(".json") and f.startswith(profile + "-"):
+                    c = json.load(open(os.path.join(d, f)))
+                    if c.get("mode") == mode:
+                        out.append(c["ops"] if mode == "seq" else (c["ops"], c.get("seed", 1)))
         return out
 
     # -- decision ----------------------------------------------------------------------------
@@ -451,7 +467,8 @@ class Check:
     def write_replay(self, kind, rep, sig="", msg=""):
         d = os.path.join(VERIF, "replays")
         os.makedirs(d, exist_ok=True)
-        body = dict(property=self.prop, kind=kind, signature=sig, message=msg, seed=self.seed, tier=self.tier, **rep)
+        body = dict(property=self.prop, kind=kind, signature=sig, message=msg, seed=self.seed, tier=self.tier)
+        body.update(rep)
         h = hashlib.sha256(json.dumps(body, sort_keys=True).encode()).hexdigest()[:12]
         path = os.path.join(d, "%s-%s.json" % (self.prop, h))
         with open(path, "w") as f:
